@@ -61,7 +61,7 @@ def check(model, R, tier):
     R.rule('C15.SCALE', 'the term reaching each sampler parameter has the normal form of the documented formula in the role the sampler gives it (bounds for uniform_, STANDARD DEVIATION for normal_), for matrix and conv-shaped tensors', floor=20)
     R.rule('C15.SAMPLER', 'uniform_/normal_ hand (a, b) / (mean, std) to np.random.uniform(low, high) / np.random.normal(loc, scale) in those roles, with size tensor.shape, cast to tensor.dtype', floor=2)
     R.rule('C15.FAN', 'fan_in = shape[1]*prod(shape[2:]), fan_out = shape[0]*prod(shape[2:]); rank < 2 raises', floor=3)
-    R.rule('C15.GAIN', 'calculate_gain maps each documented non-linearity to the documented value and raises otherwise; kaiming passes (nonlinearity, a) and selects fan_in / fan_out by mode, rejecting other modes', floor=12)
+    R.rule('C15.GAIN', 'calculate_gain maps each documented non-linearity to the documented value and raises otherwise; kaiming passes (nonlinearity, a) and selects fan_in / fan_out by mode, rejecting other modes', floor=19)
     R.rule('C15.OBJECT', 'every filler returns its argument and writes only .data of it (new array of tensor.shape cast to tensor.dtype)', floor=9)
     gain = P.atom('gain')
     T = P.atom('tensor')
@@ -87,6 +87,12 @@ def check(model, R, tier):
         ok = bool(outs) and all(o.kind == 'return' and eqv(o.value, want) for o in outs)
         R.ob('C15.GAIN', cg.qualname, '%s -> %s' % (nl, [canon(o.value) for o in outs]), ok, 'documented gain for %s is %s' % (nl, want.canon()), cg.loc)
     slope = P.atom('slope')
+    # the parameter is only meaningful for leaky_relu: for every other non-linearity the gain is the table value whatever param is passed
+    for nl, want in table.items():
+        outs = PE(model, preds={'slope is None': False, 'slope is not None': True}, atoms_not_none=True).paths(cg, {cg.pos_params[0]: nl, cg.pos_params[1]: slope})
+        rets = [o for o in outs if o.kind == 'return']
+        ok = bool(rets) and len(rets) == len(outs) and all(eqv(o.value, want) for o in rets)
+        R.ob('C15.GAIN', cg.qualname, '%s with a param given -> %s' % (nl, sorted({canon(o.value) for o in rets})), ok, 'param is ignored for %s: the gain stays %s' % (nl, want.canon()), cg.loc)
     outs = PE(model, preds={'slope is None': False, 'slope is not None': True}).paths(cg, {cg.pos_params[0]: 'leaky_relu', cg.pos_params[1]: slope})
     rets = [o for o in outs if o.kind == 'return']
     ok = bool(rets) and all(eqv(o.value, sqrt(2 / (1 + slope * slope))) for o in rets)
